@@ -105,7 +105,8 @@ def forbidden_scan(files=None):
     for rel in files or coq_files():
         p = os.path.join(COQ, rel)
         try:
-            src = open(p).read()
+            with open(p) as fh:
+                src = fh.read()
         except FileNotFoundError:
             continue
         src_nc = strip_coq_comments(src)
@@ -155,7 +156,8 @@ THM_RE = re.compile(r"^\s*(Theorem|Lemma|Corollary|Example|Fact|Proposition)\s+(
 
 
 def property_theorems(prop_file):
-    src = strip_coq_comments(open(os.path.join(COQ, prop_file)).read())
+    with open(os.path.join(COQ, prop_file)) as fh:
+        src = strip_coq_comments(fh.read())
     return [(m.group(1), m.group(2)) for m in THM_RE.finditer(src)]
 
 
